@@ -17,7 +17,7 @@ import time
 
 ROOT = os.path.dirname(os.path.dirname(os.path.abspath(__file__)))
 sys.path.insert(0, ROOT)
-sys.path.insert(0, "/repo")
+import engine  # noqa: E402,F401  (puts the repository on sys.path)
 
 from engine import worker  # noqa: E402
 
@@ -57,6 +57,70 @@ def matches_known(f, res):
         return bool(eval(f.get("match", "False"), {}, dict(zip(names, res["ce"]["args"]))))
     except Exception:  # noqa: BLE001
         return False
+
+
+def _child(task, conn):
+    try:
+        res = worker.run_obligation(task)
+    except BaseException as e:  # noqa: BLE001
+        res = {"name": task["ob"]["name"], "fn": task["ob"]["fn"], "P": task["ob"].get("P", {}), "module": task["module"],
+               "kind": task["ob"].get("kind", "crosshair"), "status": "harness_error", "detail": repr(e)}
+    try:
+        conn.send(json.loads(json.dumps(res, default=repr)))
+    finally:
+        conn.close()
+
+
+def run_parallel(ctx, tasks, jobs):
+    """One forked process per obligation, at most `jobs` at a time.  A process that dies (z3 can
+    abort on an internal assertion) or overruns its hard limit yields an *inconclusive* result;
+    it is retried once."""
+    results = [None] * len(tasks)
+    queue = [(i, 0) for i in range(len(tasks))]
+    running = {}
+
+    def crashed(i, why):
+        ob = tasks[i]["ob"]
+        return {"name": ob["name"], "fn": ob["fn"], "P": ob.get("P", {}), "module": tasks[i]["module"],
+                "kind": ob.get("kind", "crosshair"), "status": "inconclusive", "detail": why, "witness": "refuted (not run)"}
+
+    while queue or running:
+        while queue and len(running) < jobs:
+            i, attempt = queue.pop(0)
+            rd, wr = ctx.Pipe(duplex=False)
+            pr = ctx.Process(target=_child, args=(tasks[i], wr), daemon=True)
+            pr.start()
+            wr.close()
+            hard = 3.2 * float(tasks[i]["ob"].get("timeout", 60)) * float(os.environ.get("VERIF_TIMEOUT_SCALE", "1")) + 180
+            running[i] = (pr, rd, time.time() + hard, attempt)
+        time.sleep(0.05)
+        for i in list(running):
+            pr, rd, deadline, attempt = running[i]
+            if rd.poll():
+                try:
+                    results[i] = rd.recv()
+                except EOFError:
+                    results[i] = None
+                pr.join(5)
+                if results[i] is None:
+                    if attempt == 0:
+                        queue.append((i, 1))
+                    else:
+                        results[i] = crashed(i, "worker process died (exit code %r) twice" % pr.exitcode)
+                del running[i]
+            elif not pr.is_alive():
+                pr.join(1)
+                if attempt == 0:
+                    queue.append((i, 1))
+                else:
+                    results[i] = crashed(i, "worker process died (exit code %r) twice" % pr.exitcode)
+                del running[i]
+            elif time.time() > deadline:
+                pr.kill()
+                pr.join(5)
+                results[i] = crashed(i, "hard time limit exceeded; worker killed")
+                del running[i]
+    return results
 
 
 def main(argv=None):
@@ -142,8 +206,7 @@ def main(argv=None):
     rounds = 0
     while pending and rounds < 9:
         rounds += 1
-        with ctx.Pool(min(a.j, max(1, len(pending))), maxtasksperchild=1) as pool:
-            out = pool.map(worker.run_obligation, pending, chunksize=1)
+        out = run_parallel(ctx, pending, a.j)
         again = []
         for task, res in zip(pending, out):
             if res.get("status") == "refuted":
